@@ -244,11 +244,17 @@ int main(int argc, char** argv)
                         ca.push_back({workers, batch, n1, f, split, 2, f & 1 ? 0u : 2u});
                     }
                 }
+    // batches of more than one check only form when the queue is long relative to the number of threads
+    // (nNow = min(batch, queue/(nTotal+nIdle+1))): master alone with 4 checks, and master + 1 worker with 6-8 checks
+    for (unsigned f = 0; f < 16; f++) ca.insert(ca.begin() + f, {0, 2, 4, f, 0, 2, f & 1 ? 0u : 1u}); // cheap (single schedule): first
+    for (unsigned f : big ? std::vector<unsigned>{0, 1, 2, 4, 8, 16, 32, 3, 6, 12, 24, 48, 33} : std::vector<unsigned>{0, 2, 8, 32, 12})
+        ca.push_back({1, 2, 6, f, 0, 2, 0});
+    if (big) for (unsigned f : {0u, 1u, 16u, 128u, 66u}) ca.push_back({1, 3, 8, f, 3, 2, 1});
     if (part.empty() || part == "a")
     for (auto& c : ca) {
         if (vx::deadline_reached()) { complete = false; break; }
         vxs::Options o;
-        o.max_preempt = (c.workers == 2) ? std::min(bound, 2) : bound;
+        o.max_preempt = (c.workers == 2) ? std::min(bound, 2) : (c.n1 > 4 ? std::min(bound, 1 + (int)big) : bound);
         auto r = vxs::explore("C14a-checkqueue[" + c.str() + "]", [&] { return a::Body(c); }, o, [] { return a::g_outcome; });
         total_exec += r.executions; total_points += r.choice_points; configs++;
         distinct += r.distinct_outcomes;
